@@ -109,5 +109,28 @@ class C04(PropBase):
                     self.fail(rep, "a history with corrupted squitters interleaved ends in a different table",
                               {"ops": ops, "clean": [sq] + hist, "mixed": [sq] + mixed})
                     return
+            # ... and must not advance the expiry sweep: a silent aircraft, a pause, then few good and many corrupted squitters
+            bads = [b for b in bad if must_reject(b)]
+            for (u, r) in ((False, False), (True, True)):
+                da = rng.choice([1, 2, 5])
+                k = rng.randrange(1, 10)
+                few = [gen.rand_frame(rng, rng.choice(["df11", "tc4", "tc11", "tc19.1"]), 0x4C0000 + rng.randrange(3)) for _ in range(k)]
+                many = list(few)
+                for b in rng.sample(bads, min(25, len(bads))):
+                    many.insert(rng.randrange(len(many) + 1), b)
+                ops = []
+                for tag, lines in (("clean", few), ("mixed", many)):
+                    ops += ["reset", gen.cfg_op(use_update=u, relaxed=r, delete_after=da), f"case {tag}"] + gen.seg([sq]) \
+                        + [f"adv {da * 1000 + 1500}"] + gen.seg(lines) + ["dump"]
+                impl, _, model = run.execute(ops, model=driver_ok)
+                rep.evaluations += len(many); rep.traces += 1
+                self.corr(rep, impl, model, "silent aircraft, then corrupted squitters", None)
+                ci = core.split_cases(impl)
+                a = [l for l in ci.get("clean", []) if l.startswith(("row", "enddump"))]
+                b2 = [l for l in ci.get("mixed", []) if l.startswith(("row", "enddump"))]
+                if a != b2:
+                    self.fail(rep, f"corrupted squitters change when a silent aircraft is removed: {len(a) - 1} rows without them, {len(b2) - 1} with them",
+                              {"ops": ops, "clean": few, "mixed": many, "delete_after": da})
+                    return
 
 PROP = C04()
